@@ -33,6 +33,42 @@ def rand_config(rng, n_streamers=None, allow_opts=True):
     return StreamerConfiguration(streamers)
 
 
+def rand_xdma_config(rng):
+    """reader + writer; every subset of extensions and plain options in any order (DmaExt system type)"""
+    from snaxc.accelerators.streamers.extensions import (AddExtension, MaxPoolExtension, MemSetExtension, RescaleDownExtension,
+                                                          RescaleUpExtension, TransposeExtension)
+    from snaxc.accelerators.streamers.streamers import (HasBroadcast, HasByteMask, HasChannelMask, Streamer, StreamerConfiguration,
+                                                         StreamerFlag, StreamerSystemType, StreamerType)
+    streamers = []
+    for i in range(2):
+        nt = rng.randint(1, 5)
+        flags = [rng.choice([StreamerFlag.Normal, StreamerFlag.Normal, StreamerFlag.Reuse]) for _ in range(nt)]
+        opts = [HasChannelMask()]
+        for o in (MaxPoolExtension, AddExtension, RescaleDownExtension, RescaleUpExtension, MemSetExtension, TransposeExtension, HasByteMask, HasBroadcast):
+            if rng.random() < 0.45:
+                opts.append(o())
+        rng.shuffle(opts)
+        streamers.append(Streamer(StreamerType.Reader if i == 0 else StreamerType.Writer, flags, [8], opts))
+    return StreamerConfiguration(streamers, StreamerSystemType.DmaExt)
+
+
+def xdma_cfg_record(cfg, active_ext, vals):
+    """active_ext: name of the extension that executes the region's kernel (None for a plain copy); the FIRST extension of that name
+    in the whole configuration is the one the kernel is given to"""
+    from snaxc.accelerators.streamers.extensions import StreamerExtension
+    from snaxc.accelerators.streamers.streamers import HasByteMask
+    out = []
+    for s in cfg.streamers:
+        exts = []
+        for o in s.opts:
+            if isinstance(o, StreamerExtension):
+                act = 1 if (active_ext is not None and o.name == active_ext) else 0
+                exts.append({"name": o.name, "len": o.csr_length, "active": act, "vals": (list(vals) + [0] * o.csr_length)[:max(o.csr_length, 1)]})
+        out.append({"temp": [f.value for f in s.temporal_dims], "nspat": len(s.spatial_dims),
+                    "bytemask": 1 if any(isinstance(o, HasByteMask) for o in s.opts) else 0, "exts": exts})
+    return out
+
+
 def cfg_record(cfg):
     from snaxc.accelerators.streamers.extensions.transpose_extension import TransposeExtension
     from snaxc.accelerators.streamers.streamers import HasAddressRemap, HasBroadcast, HasChannelMask
@@ -144,7 +180,7 @@ def build_case(name, acc, pats, zeros, body, nin, tail, knm, rep, prelude=""):
     case = {"name": name, "A": img, "B": img, "argdom": [[1000 + 8 * k] for k in range(len(pats))], "opqdom": [[0]],
             "text": text, "after": str(fn),
             "extra": {"cfg": cfg_record(acc.streamer_config.data), "pats": pats, "zeros": [1 if z else 0 for z in zeros],
-                      "declared": declared, "setupnames": [p.data for p in setup.param_names.data], "tail": tail, "knm": knm}}
+                      "declared": declared, "setupnames": [p.data for p in setup.param_names.data], "tail": tail, "knm": knm, "xdma": 0}}
     if fields_in_op != declared:
         rep.violation(name + "|accop", f"accfg.accelerator field order {fields_in_op[:6]}.. differs from the accelerator's field list", {"source": text})
     return case
@@ -313,7 +349,40 @@ def run(pid: str, tier: str, seed: int, selftest=False, replay=None) -> int:
         case = build_case(f"gemmx-rescale:n{n}", acc, pats, [False] * 5, body, 4, tail, steps, rep)
         if case:
             cases.append(case)
-    # (5) xDMA (DmaExt system type): one value per declared field, for a plain copy region (no kernel in the body)
+    # (5a) xDMA (DmaExt system type) over random configurations (extension and option subsets in any order), plain copies and regions whose
+    # kernel is executed by one of the extensions: every register by meaning (XdmaRegs in CsrLayout.tla)
+    for k in range(60 if quick else 1500):
+        xc = rand_xdma_config(rng) if k > 0 else None
+        try:
+            from snaxc.accelerators.snax_xdma import SNAXXDMAAccelerator
+            xacc = SNAXXDMAAccelerator(xc) if xc is not None else SNAXXDMAAccelerator()
+        except Exception as e:
+            rep.refused += 1
+            continue
+        c = xacc.streamer_config.data
+        mk = markers()
+        pats = rand_patterns(rng, c, mk)
+        kern = rng.choice(["copy", "down", "up", "down", "up"])
+        izp, ozp, mult, shift = rng.choice([0, 3, -4]), rng.choice([0, -5, 7]), rng.choice([1234, 77, 1 << 20]), rng.choice([9, 0, 31])
+        if kern == "copy":
+            body = "    ^bb0(%s0 : !dart.stream<i64>, %s1 : !dart.stream<i64>):\n      \"test.termop\"() : () -> ()"
+        else:
+            ti, to = ("i32", "i8") if kern == "down" else ("i8", "i32")
+            body = f"""    ^bb0(%s0 : !dart.stream<{ti}>, %s1 : !dart.stream<{to}>):
+      %r = "dart.generic"(%s0) <{{library_call = "snax_xdma"}}> ({{
+      ^bb1(%x : {ti}, %z : {to}):
+        %v = kernel.rescale %x {{input_zp = {izp} : i32, output_zp = {ozp} : i32, multiplier = array<i32: {mult}>, shift = array<i8: {shift}>, min_int = -128 : i32, max_int = 127 : i32, double_round = false}} : ({ti}) -> {to}
+        dart.yield %v : {to}
+      }}) : (!dart.stream<{ti}>) -> !dart.stream<{to}>
+      dart.yield %r : !dart.stream<{to}>"""
+        name = f"xdma-cfg:{seed}:{k}:{kern}:{xacc.streamer_config}"
+        case = build_case(name, xacc, pats, [False, False], body, 1, [], 0, rep)
+        if case:
+            case["extra"]["xdma"] = 1
+            case["extra"]["cfg"] = xdma_cfg_record(c, {"down": "rescale_down_ext", "up": "rescale_up_ext"}.get(kern), [izp, mult, ozp, shift])
+            cases.append(case)
+        maps.append(reg_map_case(name, xacc))
+    # (5b) xDMA default configuration: one value per declared field, for a plain copy region (no kernel in the body)
     xdma_cases = []
     try:
         from snaxc.accelerators.snax_xdma import SNAXXDMAAccelerator
